@@ -82,7 +82,7 @@ class C02(Prop):
                 ctx.fail("lookup-phantom", "LRU %r was never named, yet lru_node finds block %r (stem %r...)"
                          % (q, node.block, node.stem()[:30]), case)
             try:
-                w = case.call("get_webentity_by_prefix", t.get_webentity_by_prefix, q)
+                w = case.call_may_refuse("get_webentity_by_prefix", t.get_webentity_by_prefix, q)
                 ctx.fail("lookup-phantom", "get_webentity_by_prefix(%r) returned %r for an absent LRU" % (q, w), case)
             except TraphException:
                 pass
